@@ -57,6 +57,11 @@ def run(chk):
                     chk.violation("%s: dumping twice gives different bytes" % c["kind"], c, "order")
                     bad += 1
                 texts.add(r[1])
+        thirds = set(r[3] for res in per_seed.values() for r in res[i] if r[0] == "ok" and len(r) > 3 and r[3] is not None)
+        if len(thirds) > 1:
+            chk.violation("%s: written with a nested variant as main variant, the same content gives %d different byte sequences "
+                          "(some of the objects had a child replaced before; content is equal)" % (c["kind"], len(thirds)), c, "order")
+            bad += 1
         if len(texts) > 1:
             chk.violation("%s: the same content gives %d different byte sequences across construction orders / hash seeds"
                           % (c["kind"], len(texts)), c, "order")
